@@ -1275,6 +1275,11 @@ func engineIV(w *World, tier string) *EngineResult {
 	}
 	r.Stats["variable_position_sites"] = n
 	r.floor("variable_position_sites", 30)
+	for k := range ivReviewed {
+		if _, used := r.Reviewed[k]; !used {
+			r.Notes = append(r.Notes, "reviewed entry without a matching site (stale): "+k)
+		}
+	}
 	r.finish()
 	return r
 }
@@ -1285,7 +1290,7 @@ var ivReviewed = map[string]string{
 	"IX-var|base.(*T).AppendVariant|newVariants[targetTVariantIdx]#3": ivAppendVariantWhy,
 	"IX-var|base.(*T).AppendVariant|newVariants[targetTVariantIdx]#4": ivAppendVariantWhy,
 	"IX-var|base.(*T).AppendVariant|newVariants[targetTVariantIdx]#5": ivAppendVariantWhy,
-	"IX-var|eval.(*Bind).handleMultipleToMultipleAsigntment|rightVariants[rightIdx]#3": "inside the inner loop rightIdx ≤ rightLen − len(leftTs[leftIdx:]) (the break above), and len(leftTs[leftIdx:]) ≥ 1 because the outer loop left when leftIdx + 1 > len(leftTs); so rightIdx ≤ rightLen − 1. The argument needs len(s[a:]) = len(s) − a, a three-variable fact outside the difference-constraint domain — read, not decided",
+	"IX-var|eval.(*Bind).handleMultipleToMultipleAsigntment|rightTs.GetVariants()[rightIdx]#3": "inside the inner loop rightIdx ≤ rightLen − len(leftTs[leftIdx:]) (the break above), and len(leftTs[leftIdx:]) ≥ 1 because the outer loop left when leftIdx + 1 > len(leftTs); so rightIdx ≤ rightLen − 1. The argument needs len(s[a:]) = len(s) − a, a three-variable fact outside the difference-constraint domain — read, not decided",
 }
 
 const ivAppendVariantWhy = "loop invariant len(newVariants) ≥ targetTVariantIdx at the head of the range loop: it holds for index 0; in the body `if idx >= len(nv) { nv = append(nv, x) }` makes len(nv) ≥ idx + 1 (with the invariant the test is len == idx, one append suffices), nothing in the body shrinks nv, and the next index is idx + 1. An inductive invariant over a loop-carried slice is outside the dominating-facts domain — read, not decided"
